@@ -36,21 +36,25 @@ end literals
 
 /-! ### `%d` -/
 
-theorem showNat_1000 : showNat 1000 = [49, 48, 48, 48] := by simp [showNat]
-theorem showNat_1002 : showNat 1002 = [49, 48, 48, 50] := by simp [showNat]
-theorem showNat_1003 : showNat 1003 = [49, 48, 48, 51] := by simp [showNat]
+theorem showNatAux_digits : ∀ (f n : Nat), ∀ d ∈ showNatAux f n, 48 ≤ d ∧ d ≤ 57
+  | 0, n => by intro d hd; simp [showNatAux] at hd; omega
+  | f + 1, n => by
+    intro d hd
+    simp only [showNatAux] at hd
+    split at hd
+    · simp at hd; omega
+    · simp at hd
+      rcases hd with hd | hd
+      · exact showNatAux_digits f _ d hd
+      · omega
 
-theorem showNat_digits (n : Nat) : ∀ d ∈ showNat n, 48 ≤ d ∧ d ≤ 57 := by
-  induction n using showNat.induct with
-  | case1 n h => intro d hd; rw [showNat] at hd; simp [h] at hd; omega
-  | case2 n h ih =>
-    intro d hd; rw [showNat] at hd; simp [h] at hd
-    rcases hd with hd | hd
-    · exact ih d hd
-    · omega
+theorem showNat_digits (n : Nat) : ∀ d ∈ showNat n, 48 ≤ d ∧ d ≤ 57 := showNatAux_digits n n
 
 theorem showNat_ne_nil (n : Nat) : showNat n ≠ [] := by
-  rw [showNat]; split <;> simp
+  unfold showNat
+  cases n with
+  | zero => simp [showNatAux]
+  | succ k => simp only [showNatAux]; split <;> simp
 
 /-- The number a terminal reads from a digit string. -/
 def accDigits (cur : Option Nat) (ds : List Nat) : Option Nat :=
@@ -59,13 +63,19 @@ def accDigits (cur : Option Nat) (ds : List Nat) : Option Nat :=
 theorem accDigits_append (cur : Option Nat) (a b : List Nat) :
     accDigits cur (a ++ b) = accDigits (accDigits cur a) b := by simp [accDigits, List.foldl_append]
 
-theorem accDigits_showNat (n : Nat) : accDigits none (showNat n) = some n := by
-  induction n using showNat.induct with
-  | case1 n h => rw [showNat]; simp [h, accDigits, pv]
-  | case2 n h ih =>
-    rw [showNat]; simp only [h, dite_false]
-    rw [accDigits_append, ih]
-    simp [accDigits, pv]; omega
+theorem accDigits_showNatAux : ∀ (f n : Nat), n ≤ f → accDigits none (showNatAux f n) = some n
+  | 0, n, h => by
+    have : n = 0 := by omega
+    subst this; simp [showNatAux, accDigits, pv]
+  | f + 1, n, h => by
+    simp only [showNatAux]
+    split
+    · simp [accDigits, pv]
+    · rw [accDigits_append, accDigits_showNatAux f (n / 10) (by omega)]
+      simp [accDigits, pv]; omega
+
+theorem accDigits_showNat (n : Nat) : accDigits none (showNat n) = some n :=
+  accDigits_showNatAux n n (Nat.le_refl n)
 
 /-- Digits are accumulated by a CSI without intermediates. -/
 theorem feed_digits (p : Nat) (gs : List PGroup) (g : PGroup) (m : VModes) (a : Attrs) :
@@ -119,12 +129,12 @@ theorem feed_text_str (m : VModes) (a : Attrs) :
 theorem mouseOn_eq (k : Nat) (h : 1 ≤ k ∧ k ≤ 3) :
     mouseOn (modeForMouse k) = [27, 91, 63, 49, 48, 48, 48 + (if k = 1 then 0 else k), 104, 27, 91, 63, 49, 48, 48, 54, 104] := by
   have : k = 1 ∨ k = 2 ∨ k = 3 := by omega
-  rcases this with rfl | rfl | rfl <;> simp [mouseOn, modeForMouse, showInt, showNat]
+  rcases this with rfl | rfl | rfl <;> rfl
 
 theorem mouseOff_eq (k : Nat) (h : 1 ≤ k ∧ k ≤ 3) :
     mouseOff (modeForMouse k) = [27, 91, 63, 49, 48, 48, 48 + (if k = 1 then 0 else k), 108, 27, 91, 63, 49, 48, 48, 54, 108] := by
   have : k = 1 ∨ k = 2 ∨ k = 3 := by omega
-  rcases this with rfl | rfl | rfl <;> simp [mouseOff, modeForMouse, showInt, showNat]
+  rcases this with rfl | rfl | rfl <;> rfl
 
 theorem feed_mouseOn (m : VModes) (a : Attrs) (k : Nat) (h : 1 ≤ k ∧ k ≤ 3) :
     VT.feed ⟨.ground, m, a⟩ (mouseOn (modeForMouse k)) =
@@ -1045,5 +1055,92 @@ theorem run_inv (cfg : Cfg) : ∀ (ops : List Op) (s : Sys) (vt : VT) (ph ph' : 
         have h2 := run_inv cfg rest _ _ ph1 ph' _ h1 hv hnt.2
         simpa [Sys.run, ghostRun, feed_append] using h2
     · cases hv
+
+/-! ### from the invariant to the specification's predicates -/
+
+theorem off_of_standard (m0 : VModes) (h : m0.standard = true) : Off m0 := by
+  simp only [VModes.standard, Bool.and_eq_true, Bool.not_eq_true', beq_iff_eq] at h
+  exact ⟨h.1.1.1.1, h.1.1.1.2, h.1.1.2, h.1.2, h.2⟩
+
+/-- The invariant holds when the terminal has been built. -/
+theorem build_inv (cfg : Cfg) (toplevel : Bool) (m0 : VModes) (h : m0.standard = true) :
+    MInv cfg (Sys.build toplevel).1 (VT.feed ⟨.ground, m0, Attrs.default⟩ (Sys.build toplevel).2) .running {} := by
+  obtain ⟨h1, h2, h3, h4, h5⟩ := off_of_standard m0 h
+  simp only [Sys.build, Term.build]
+  rw [feed_startBytes]
+  refine ⟨rfl, Nat.zero_le 3, fun _ => rfl, by simp, fun _ => ⟨?_, ?_, ?_, ?_, ?_⟩, fun hne => absurd rfl hne, ?_, ?_, ?_⟩
+  · simpa using h1
+  · simpa using h2
+  · simp [h3, modeForMouse]
+  · simpa using h4
+  · simpa using h5
+  · exact ⟨rfl, rfl, rfl, rfl, (fun _ hx => by cases hx), (fun _ hx => by cases hx), (fun _ hz => by cases hz), ⟨Nat.zero_le 1, Nat.le_refl 1, Nat.zero_le 1, Nat.zero_le 1⟩⟩
+  · intro top ht
+    cases toplevel <;> simp at ht
+    subst ht; rfl
+  · intro a v hx; cases hx
+
+theorem modesShown_of (cfg : Cfg) (d : XDrv) (g : Ghost) (m : VModes) (hs : Shown d.mode m) (hg : GhostOk cfg d g) :
+    modesShown m g = true := by
+  obtain ⟨a1, a2, a3, a4, a5⟩ := hs
+  obtain ⟨g1, g2, g3, g4, _, _, _, _⟩ := hg
+  simp only [modesShown, Bool.and_eq_true, beq_iff_eq, decide_eq_true_eq]
+  refine ⟨⟨⟨⟨?_, ?_⟩, ?_⟩, ?_⟩, ?_⟩
+  · rw [a1, g1]; simp
+  · rw [a2, g2]; simp
+  · rw [a3, g3]
+  · rw [a4, g3]; simp
+  · rw [a5, g4]; simp
+
+theorem getctlOk_of (cfg : Cfg) (d : XDrv) (g : Ghost) (hg : GhostOk cfg d g) : getctlOk d g = true := by
+  obtain ⟨g1, g2, g3, g4, g5, g6, _, _⟩ := hg
+  simp only [getctlOk, getctlInt, Bool.and_eq_true, beq_iff_eq, Bool.or_eq_true, Option.isNone_iff_eq_none]
+  refine ⟨⟨⟨⟨⟨?_, ?_⟩, ?_⟩, ?_⟩, ?_⟩, ?_⟩
+  · rw [g1]
+  · rw [g2]
+  · rw [g3]
+  · rw [g4]
+  · cases hb : g.blink with
+    | none => left; rfl
+    | some x => right; rw [(g5 x hb).1]
+  · cases hb : g.shape with
+    | none => left; rfl
+    | some x => right; rw [(g6 x hb).1]
+
+theorem restoredOk_of (vt : VT) (m0 : VModes) (h0 : Off m0) (h : Off vt.modes) (ha : vt.attrs = Attrs.default) :
+    restoredOk vt m0 = true := by
+  obtain ⟨a1, a2, a3, a4, a5⟩ := h
+  obtain ⟨b1, b2, b3, b4, b5⟩ := h0
+  simp only [restoredOk, Bool.and_eq_true, beq_iff_eq, List.all_eq_true]
+  refine ⟨⟨⟨⟨⟨?_, ?_⟩, ?_⟩, ?_⟩, ?_⟩, ?_⟩
+  · rw [a1, b1]
+  · rw [a2, b2]
+  · rw [a3, b3]
+  · rw [a4, b4]
+  · rw [a5, b5]
+  · intro k _; rw [ha]; rfl
+
+/-- Destruction from any phase leaves the terminal in its initial modes. -/
+theorem destroy_off (cfg : Cfg) (s : Sys) (vt : VT) (ph : Phase) (g : Ghost) (h : MInv cfg s vt ph g) :
+    Off (VT.feed vt s.destroy).modes ∧ (VT.feed vt s.destroy).attrs = Attrs.default := by
+  obtain ⟨ps, m, A⟩ := vt
+  obtain ⟨hgr, hml, hkz, hst, hsh, hoff, hgh, hsu, hpd⟩ := h
+  simp only at hgr; subst hgr
+  unfold Sys.destroy
+  by_cases hs : s.term.state = .unstarted
+  · have hph := hst.2 hs
+    subst hph
+    simp only [Term.teardown, hs, ne_eq, not_true_eq_false, if_false, List.append_nil, feed_nil]
+    exact hoff (by simp)
+  · have hsrc : Shown s.term.drv.mode m ∨ Off m := by
+      cases ph
+      · exact Or.inl (hsh rfl)
+      · exact Or.inr (hoff (by simp)).1
+      · exact absurd (hst.1 rfl) hs
+    obtain ⟨m', hf, ho⟩ := teardown_off s.term.drv m A hml hsrc
+    simp only [Term.teardown, ne_eq, hs, not_false_eq_true, if_true, not_true_eq_false, if_false, List.append_nil]
+    rw [hf]
+    exact ⟨ho, rfl⟩
+
 
 end Tickit.Modes
